@@ -81,7 +81,7 @@ func createCron(node gen.Node) *cron {
 				// do nothing
 				c.node.Log().Debug(cronLogPrefix+"ignore job %s action time != now",
 					cj.job.Name)
-				return
+				continue
 			}
 
 			// DO the job
